@@ -20,7 +20,7 @@ SECRET_CHARS = "abcXYZ019_!@#$%^&*()+=/-"
 KW_AFFIX = ["", "vv", "gj", "_", "Vg"]
 IP_SUFFIX = ["", "", "", ":80", ":65535", "/24", "/8", ".", ","]
 SAFE_MARK = set("GHIJKLMNOPQRSTUVWXYZgijnquvz_!")   # never part of hostN.example.com / keywordN / hex / digits / ********
-FQDNS = ["srvq7.lab.zzcorp.test", "nodeq1.zz-corp.test", "quiz9.jj.nn.uu.test", "jjhostq.test", "qqlocalz"]
+FQDNS = ["srvq7.lab.zzcorp.test", "nodeq1.zz-corp.test", "quiz9.jj.nn.uu.test", "jjhostq.test", "qqlocalz", "SrvQ8.lab.zzcorp.test", "APPq3.jj.nn.uu.test"]
 KEYWORDS = ["ZEBRA", "QUUX!", "MNOP", "Jinx_Q", "zzqq", "VIP-ZONE", "uniq", "GQ"]
 PATTERNS_PLAIN = ["XDROPX", "secret-zone", "DO NOT KEEP", "drop.me", "a+b"]
 # regex patterns with a text that is known (by construction) to match
@@ -104,7 +104,7 @@ def gen_otherhost(rng, fqdn):
     d = domain_of(fqdn)
     if not d:
         return None
-    return rng.choice(["dbq", "w-1", "x_y", "n9.sub", "mail", "a", "node-77.rack_2", "0x1f"]) + "." + d
+    return rng.choice(["dbq", "w-1", "x_y", "n9.sub", "mail", "a", "node-77.rack_2", "0x1f", "DBq01", "Mailq"]) + "." + d
 
 
 def gen_secret(rng, n):
